@@ -108,3 +108,33 @@ Example match_rule_instance :
   /\ match_id (proto_id (bos "preconf") 2 0 0) (bos "preconf") (version_string 1 2 0) = NoMatch
   /\ match_id (proto_id (bos "handshake") 1 0 0) (bos "preconf") (version_string 1 2 0) = NoMatch.
 Proof. vm_compute. repeat split; reflexivity. Qed.
+
+(* Routing among several registered descriptors: a matched identifier determines the handler's name, so
+   among descriptors with pairwise distinct names at most one matches any identifier. *)
+Lemma match_name_determined incoming n1 v1 n2 v2 :
+  match_id incoming n1 v1 = Match -> match_id incoming n2 v2 = Match -> n1 = n2.
+Proof.
+  intros H1 H2.
+  apply match_sound in H1 as (pre1 & w1 & ? & ? & ? & ? & ? & ? & Hs1 & _).
+  apply match_sound in H2 as (pre2 & w2 & ? & ? & ? & ? & ? & ? & Hs2 & _).
+  rewrite Hs1 in Hs2. congruence.
+Qed.
+
+Lemma NoDup_map_fst_inj (A B : Type) (l : list (A * B)) d1 d2 :
+  NoDup (map fst l) -> In d1 l -> In d2 l -> fst d1 = fst d2 -> d1 = d2.
+Proof.
+  induction l as [|x l IH]; intros Hnd H1 H2 Heq; [contradiction|].
+  cbn [map] in Hnd. inversion Hnd as [|? ? Hnotin Hnd']; subst.
+  destruct H1 as [->|H1], H2 as [->|H2].
+  - reflexivity.
+  - exfalso. apply Hnotin. rewrite Heq. apply in_map. exact H2.
+  - exfalso. apply Hnotin. rewrite <- Heq. apply in_map. exact H1.
+  - apply IH; assumption.
+Qed.
+
+Theorem route_unique (descs : list (bytes * bytes)) incoming d1 d2 :
+  NoDup (map fst descs) -> In d1 descs -> In d2 descs ->
+  match_id incoming (fst d1) (snd d1) = Match -> match_id incoming (fst d2) (snd d2) = Match -> d1 = d2.
+Proof.
+  intros Hnd H1 H2 M1 M2. eapply NoDup_map_fst_inj; eauto. eapply match_name_determined; eauto.
+Qed.
